@@ -1,6 +1,7 @@
 package rules
 
 import (
+	"fmt"
 	"go/token"
 	"strings"
 
@@ -177,4 +178,119 @@ func mustSafeFn(w *core.World) *ssa.Function {
 		}
 	}
 	return nil
+}
+
+// checkRestartCallers: State.Restart re-initialises the reserved flag byte (READIN, INMATCH,
+// TERMINATE, ...) and the recorded input. Only the engine's session restart may call it; a call
+// from anywhere else - in particular from code reachable from Vm.Run - clears the routing flags
+// and the input in the middle of a request.
+func checkRestartCallers(w *core.World, r *core.Report, rule string) {
+	roles := resolveEngineRoles(w)
+	n, bad := 0, ""
+	var badPos token.Pos
+	for _, fn := range w.LibFuncs {
+		for _, c := range core.CallsTo(fn, "state.(*State).Restart") {
+			n++
+			if fn != roles.ResetFn {
+				bad = fmt.Sprintf("%s calls State.Restart at %s", core.QName(fn), w.Pos(c.Pos()))
+				badPos = c.Pos()
+			}
+		}
+	}
+	// whole-byte stores to the flag field outside Restart's own helpers are C06 R3
+	r.Check(bad == "" && n > 0 && roles.ResetFn != nil, rule, "State.Restart is called only by the engine's session restart", badPos, fmt.Sprintf("%d call site(s), all in the engine reset", n),
+		"the reserved flag byte and the recorded input are re-initialised outside the session restart (in the middle of a request: a recorded match, the reading-input mark and a termination are forgotten): "+bad)
+}
+
+// checkRowsUnmodified (C01 R5, C02 R3): the string the row grouping appends to a page is the sink
+// row itself - the element of the row list, not a slice or other derivative of it. A row is shown
+// whole or the render fails; it is never silently cut.
+func checkRowsUnmodified(w *core.World, r *core.Report, rule string) {
+	u := groupingUnitOf(w)
+	if u == nil {
+		r.Undecided(rule, "row grouping function", token.NoPos, "not found")
+		return
+	}
+	var rowsParam *ssa.Parameter
+	for _, p := range u.root.Params {
+		if p.Type().String() == "[]string" {
+			rowsParam = p
+		}
+	}
+	var exact func(v ssa.Value, d int) bool
+	exact = func(v ssa.Value, d int) bool {
+		if d > 8 {
+			return false
+		}
+		switch t := core.Strip(v).(type) {
+		case *ssa.Phi:
+			for _, e := range t.Edges {
+				if !exact(e, d+1) {
+					return false
+				}
+			}
+			return len(t.Edges) > 0
+		case *ssa.UnOp:
+			if t.Op == token.MUL {
+				if ia, ok := t.X.(*ssa.IndexAddr); ok {
+					for _, src := range core.Sources(ia.X) {
+						if src == ssa.Value(rowsParam) {
+							return true
+						}
+					}
+					if fv, ok := core.Strip(ia.X).(*ssa.FreeVar); ok && fv.Name() == rowsParam.Name() {
+						return true
+					}
+				}
+				// a local the row was spilled to
+				if al, ok := t.X.(*ssa.Alloc); ok && al.Referrers() != nil {
+					n := 0
+					for _, rr := range *al.Referrers() {
+						if st, ok := rr.(*ssa.Store); ok && st.Addr == ssa.Value(al) {
+							n++
+							if !exact(st.Val, d+1) {
+								return false
+							}
+						}
+					}
+					return n > 0
+				}
+			}
+		case *ssa.Parameter, *ssa.FreeVar:
+			// a helper or closure that is handed the row: decided at its call sites by the typestate rule
+			return true
+		}
+		return false
+	}
+	n, bad := 0, ""
+	var badPos token.Pos
+	for _, c := range u.calls() {
+		m, _, ok := builderMethod(c)
+		if !ok || m != "WriteString" {
+			continue
+		}
+		arg := core.CallArgs(c)[1]
+		isRow := false
+		for _, src := range core.Sources(arg) {
+			if uo, ok := src.(*ssa.UnOp); ok && uo.Op == token.MUL {
+				if ia, ok := uo.X.(*ssa.IndexAddr); ok {
+					for _, s2 := range core.Sources(ia.X) {
+						if s2 == ssa.Value(rowsParam) {
+							isRow = true
+						}
+					}
+				}
+			}
+		}
+		if !isRow {
+			continue
+		}
+		n++
+		if !exact(arg, 0) {
+			bad = "the appended string is derived from the row (sliced, concatenated or otherwise rebuilt), not the row itself"
+			badPos = c.Pos()
+		}
+	}
+	r.Check(bad == "" && n > 0, rule, "row grouping: rows are appended unmodified", badPos, fmt.Sprintf("%d append site(s) write the row element itself", n),
+		"a sink row can be shown cut or altered instead of whole (or an error): "+bad)
 }
